@@ -51,9 +51,18 @@ def build_network(case: dict, workdir: Path):
         import importlib
         from ..common import REPO
         mod = importlib.import_module(f"naunet.examples.{case['bundled']}")
+        # same order of operations as the render command
+        from naunet.chemistrydata import update_binding_energy, update_photon_yield
+        skw = {"grain_symbol": mod.grain_symbol, "surface_prefix": mod.surface_prefix, "bulk_prefix": mod.bulk_prefix}
+        Species._replacement = dict(mod.element_replacement)
+        Species.set_known_elements(list(mod.elements))
+        Species.set_known_pseudoelements(list(mod.pseudo_elements))
+        update_binding_energy({Species(k, **skw).name: v for k, v in mod.binding_energy.items()})
+        update_photon_yield({Species(k, **skw).name: v for k, v in mod.photon_yield.items()})
         return Network(filelist=str(REPO / "naunet" / "examples" / case["bundled"] / mod.files), fileformats=mod.formats, elements=list(mod.elements),
                        pseudo_elements=list(mod.pseudo_elements), allowed_species=list(mod.allowed_species), required_species=list(mod.extra_species),
-                       heating=list(mod.heating), cooling=list(mod.cooling), shielding=dict(mod.shielding), grain_model=mod.grain_model)
+                       species_kwargs=skw, heating=list(mod.heating), cooling=list(mod.cooling), shielding=dict(mod.shielding), grain_model=mod.grain_model,
+                       rate_modifier={int(k): v for k, v in mod.rate_modifier.items()}, ode_modifier=dict(mod.ode_modifier))
     net = case["net"]
     provide_binding_energies(net)
     reacs = net["reactions"]
@@ -336,6 +345,11 @@ def run_backends(case: dict, ctx, backends, want) -> dict:
             continue
         sys_prefix = "-1 " if be == "cusparse" else ""
         cmds = [f"set {sys_prefix}{k} {lab.fmt(v)}" for k, v in data.items()]
+        if case.get("deferred_factors") and not case.get("_factors_resolved"):
+            err = resolve_deferred_factors(case, b, work / f"b_{be}", cmds, idx, be)
+            if err:
+                out["errors"].append((f"run:{be}", err, ""))
+                continue
         runs = []
         nsys = case.get("nsystem", 3) if be == "cusparse" else 1
         if be == "cusparse":
@@ -394,6 +408,32 @@ def run_backends(case: dict, ctx, backends, want) -> dict:
         o["n_eq"] = n_eq
         o["nsys"] = nsys
     return out
+
+
+def resolve_deferred_factors(case, b, cwd, setcmds, idx, be):
+    """ODE-modifier factors of the bundled cloud example are derived quantities of the UCLCHEM reaction class
+    (H2formation, H2dissociation).  Their values at the case's data point come from the published formulae, with the two
+    physics helpers (grain scattering, H2 self-shielding - C05's subject) evaluated by the compiled code itself."""
+    import math
+    if be not in ("dense", "sparse"):
+        return "deferred ODE-modifier factors need a CVODE back-end first in the list"
+    d = data_commands(case)
+    h2col = 0.5 * 1.59e21 * d["Av"]
+    if "IDX_H2I" not in idx:
+        return "no IDX_H2I macro"
+    r = lab.run_driver(b["exe"], setcmds + [f"gscat {lab.fmt(d['Av'])} 1000.0",
+                                             f"shield {idx['IDX_H2I']} {lab.fmt(h2col)} {lab.fmt(h2col)} {lab.fmt(d['Tgas'])} 1"], cwd)
+    g, sh = r.by_ev("gscat"), r.by_ev("shield")
+    if r.crashed() or not g or not sh:
+        return "driver failed on gscat/shield: " + r.stderr[-300:]
+    names = {"H2formation": 1.0e-17 * math.sqrt(d["Tgas"]) * d["nH"],
+             "H2dissociation": 5.1e-11 * d.get("G0", 1.0) * g[0]["value"] * sh[0]["value"]}
+    for mod in case["ode_modifier"].values():
+        for f in mod["factors"]:
+            if f[1] is None:
+                f[1] = float(eval(f[0], {"__builtins__": {}}, names))
+    case["_factors_resolved"] = names
+    return None
 
 
 def fmt_err(errs):
